@@ -291,6 +291,11 @@ def _expr(e, st, bm):
             else:
                 args.append(X(a[1]))
         return '%s(%s)' % (e[1], ', '.join(args))
+    if k == 'scall':
+        args = []
+        for a in e[2]:
+            args.append('%s=%s' % (a[1], X(a[2])) if a[0] == 'kw' else X(a[1]))
+        return 'super.%s(%s)' % (e[1], ', '.join(args))
     if k == 'optable':
         rows = []
         for assoc, ops in e[2]:
